@@ -521,7 +521,10 @@ DoReorder(ev) ==
 DoWrite(ev) ==
     IF ev.ok = 1
     THEN /\ files' = (ev.b :> [kind |-> KindOf(fors[ev.f]), sizes |-> FSizes(ev.f), rule |-> fors[ev.f].rule,
-                               fns |-> [x \in 1..Len(ev.es) |-> edges[ev.es[x]].fn]]) @@ files
+                               fns |-> [x \in 1..Len(ev.es) |-> edges[ev.es[x]].fn],
+                               \* exact fingerprints, for values the table encoding cannot carry
+                               fhs |-> [x \in 1..Len(ev.es) |->
+                                          IF ev.es[x] \in DOMAIN ids /\ Len(ids[ev.es[x]]) > 5 THEN FhOf(ids[ev.es[x]]) ELSE << >>]]) @@ files
          /\ err' = "ok"
          /\ Same(<<lib, doms, fors, edges, nextFid, ids, viol>>)
     ELSE /\ viol' = viol \cup {V("C14", "write-failed-" \o ev.err)}
@@ -529,7 +532,11 @@ DoWrite(ev) ==
          /\ Same(<<lib, doms, fors, edges, nextFid, files, ids>>)
 
 ReadViol(ev, f) ==
-    UNION { LET want == [f |-> f, fn |-> files[ev.b].fns[x]] IN EdgeViol(want, ev.res[x], "C14")
+    UNION { LET want == [f |-> f, fn |-> files[ev.b].fns[x]]
+                wide == /\ HasOff(want.fn) /\ Has(ev.res[x], "fh") /\ ev.res[x].f = f
+                        /\ x <= Len(files[ev.b].fhs) /\ files[ev.b].fhs[x] # << >>
+                        /\ ev.res[x].fh # files[ev.b].fhs[x]
+            IN EdgeViol(want, ev.res[x], "C14") \cup (IF wide THEN {V("C14", "wide-values-differ")} ELSE {})
             : x \in 1..Len(ev.res) }
 
 AdoptRead(ev) ==
@@ -639,6 +646,11 @@ Step ==
          [] ev.e = "ReadNew" -> DoReadNew(ev)
          [] ev.e = "Crash"   -> DoCrash(ev)
          [] ev.e = "Call"    -> Same(<<vars, ids, viol>>)
+         \* the driver had to stop because the script names something an earlier,
+         \* failed call should have created; acceptable only after such a failure
+         \* (which has been judged where it happened)
+         [] ev.e = "Stop"    -> /\ viol' = viol \cup (IF err = "ok" THEN {V("MODEL", "driver-stopped-without-a-failed-call")} ELSE {})
+                                /\ Same(<<vars, ids>>)
          [] ev.e \in Ignored -> Same(<<vars, ids, viol>>)
          [] OTHER            -> /\ viol' = viol \cup {V("MODEL", "unknown-event-" \o ev.e)}
                                 /\ Same(<<vars, ids>>)
